@@ -738,6 +738,12 @@ BENIGN = [
         {"file": CV, "old": "            dt = dt_init;\n", "new": ""},
         {"file": CV, "old": "        // Reset initial conditions\n        t0 = 0.0;", "new": "        dt = (cvflag == -6) ? dt_init : dt - t0;\n        // Reset initial conditions\n        t0 = 0.0;"}]},
     {"name": "substep-bound-spelt-out", "file": CV, "old": "step < nsubsteps + 1; step++", "new": "step <= 10 * level; step++"},
+    {"name": "state-source-by-pointer", "file": CV,
+     "old": "        if (cvflag < 0 && cvflag > -5) {\n            for (int i = 0; i < NEQUATIONS; i++) {\n                ab_tmp_[i] = ab[i];\n            }\n            dt -= t0;\n        } else if (cvflag == -6) {\n            // The state may have something wrong\n            // Reset to the initial state and try finer steps\n            for (int i = 0; i < NEQUATIONS; i++) {\n                ab_tmp_[i] = ab_init_[i];\n            }\n            dt = dt_init;\n        } else if (cvflag < 0) {",
+     "new": "        const realtype *from = (cvflag == -6) ? ab_init_ : ab;\n        if (cvflag == -6 || (cvflag < 0 && cvflag > -5)) {\n            for (int i = 0; i < NEQUATIONS; i++) {\n                ab_tmp_[i] = from[i];\n            }\n            dt = (cvflag == -6) ? dt_init : dt - t0;\n        } else if (cvflag < 0) {"},
+    {"name": "check-macro-do-while", "edits": [
+        {"file": CV, "old": "int Naunet::HandleError(int cvflag,", "new": "#define CHECKED(what)                                                   \\\n    do {                                                                \\\n        if (CheckFlag(&cvflag, what, 1, errfp_) == NAUNET_FAIL) return NAUNET_FAIL; \\\n    } while (0)\n\nint Naunet::HandleError(int cvflag,"},
+        {"file": CV, "old": "        if (CheckFlag(&cvflag, \"CVodeReInit\", 1, errfp_) == NAUNET_FAIL) {\n            return NAUNET_FAIL;\n        }\n", "new": "        CHECKED(\"CVodeReInit\");\n"}]},
     {"name": "reinit-literal-zero", "file": CV, "old": "        cvflag = CVodeReInit(cv_mem_, t0, cv_y_);", "new": "        cvflag = CVodeReInit(cv_mem_, 0.0, cv_y_);"},
     {"name": "observer-counts-in-the-test", "file": ODE, "old": "    step_ += 1;\n    time_ = t;\n    if (step_ > mxsteps_) {", "new": "    time_ = t;\n    if (++step_ > mxsteps_) {"},
     {"name": "observer-early-return", "file": ODE, "old": "    if (step_ > mxsteps_) {\n        char err[70];", "new": "    if (mxsteps_ >= step_) return;\n    {\n        char err[70];"},
